@@ -48,6 +48,15 @@ func c12Mutate(r *rand.Rand, t gen.TermV, depth int) gen.TermV {
 		out := t
 		out.Args = append([]gen.TermV{}, t.Args...)
 		i := r.Intn(len(out.Args))
+		if t.Name == "fn:Tuple" && r.Intn(2) == 0 {
+			// another length: one component more at the end, or (above three) one less
+			if len(out.Args) > 3 && r.Intn(2) == 0 {
+				out.Args = out.Args[:len(out.Args)-1]
+			} else {
+				out.Args = append(out.Args, gen.RandTypeV(r, 2))
+			}
+			return out
+		}
 		if t.Name == "fn:Struct" || t.Name == "fn:TaggedUnion" {
 			// keep labels: mutate a type position or the field list
 			switch r.Intn(4) {
